@@ -3320,8 +3320,22 @@ func ruleIdentBinds(w *World, r *Report, pkg *ssa.Package, tag string) {
 // list. Equals between a list and a set/multiset *view* of the same array is
 // false (views are distinct node types), so a diff function of the set or the
 // multiset must put the raw array into the hunk, never its own view.
-func ruleHunkRaw(w *World, r *Report, pkg *ssa.Package, tag string) {
-	const rule = "R-HUNKRAW"
+func ruleHunkRaw(w *World, r *Report, pkg *ssa.Package, tag string, fields ...string) {
+	rule := "R-HUNKRAW"
+	if tag != "v2" {
+		rule += "(" + tag + ")"
+	}
+	if len(fields) == 0 {
+		fields = []string{"Remove", "Add"}
+	}
+	isField := func(n string) bool {
+		for _, f := range fields {
+			if f == n {
+				return true
+			}
+		}
+		return false
+	}
 	n := 0
 	for _, fn := range w.FuncsOf(pkg) {
 		if fn.Signature.Recv() == nil || !diffSide(fn) {
@@ -3344,7 +3358,7 @@ func ruleHunkRaw(w *World, r *Report, pkg *ssa.Package, tag string) {
 				return
 			}
 			name := fieldName(fa.X.Type(), fa.Field)
-			if name != "Remove" && name != "Add" {
+			if !isField(name) {
 				return
 			}
 			view := ""
